@@ -89,9 +89,16 @@ fn gen_input(t: i32, r: &mut Rng, c: &Cfg) -> Vec<(i32, Vec<V>)> {
             let minlen = if gen::is_polyline(t) { 2 } else { 1 };
             let n = if gen::is_point(t) { 1 } else { r.usize_in(minlen, c.max_len.max(minlen)) };
             let kind = if t == 31 { r.below(6) as i32 } else { r.below(2) as i32 };
-            let pts = (0..n)
+            let mut pts: Vec<V> = (0..n)
                 .map(|_| [gen::coord(r, c, false).to_bits(), gen::coord(r, c, false).to_bits(), gen::coord(r, c, true).to_bits(), gen::coord(r, c, true).to_bits()])
                 .collect();
+            // one part in six is a loop in X/Y: its last vertex sits on the first one but carries
+            // its own Z and M (a measured route returning to its start)
+            if n >= 3 && r.chance(0.17) {
+                let (x, y) = (pts[0][0], pts[0][1]);
+                pts[n - 1][0] = x;
+                pts[n - 1][1] = y;
+            }
             (kind, pts)
         })
         .collect()
